@@ -18,16 +18,21 @@ class Workload:
 
 
 def build(rng, casedir, index, tier, stable=None, size=None, nrec=None, tags="safe", offsets="any",
-          mode=None, name_space=None, long_lines=False):
+          mode=None, name_space=None, long_lines=False, long_nodes=None):
     w = Workload()
+    if long_nodes is None:  # now and then segments of hundreds of kilobases (lengths only, no sequences in the file)
+        long_nodes = rng.random() < 0.03
     if name_space is None:  # GraphAligner style read names ("name description") in a fifth of the files
         name_space = rng.random() < 0.2
     size = size or rng.choice(["small", "small", "medium"])
     g = rgfa.gen_rgfa(rng, size=size)
+    if long_nodes:
+        rgfa.stretch(g, rng, rng.choice([9000, 40000]), seq=False)
+    w.long_nodes = long_nodes
     w.g = g
     w.coords = rgaf.Coords(g)
     w.gfa = g.write(os.path.join(casedir, vary_name(rng, "g.gfa") + (".gz" if rng.random() < 0.2 else "")), rng=rng,
-                    shuffle=rng.random() < 0.5)
+                    shuffle=rng.random() < 0.5, **({"with_seq": False} if long_nodes else {}))
     w.stable = rng.random() < 0.5 if stable is None else stable
     if nrec is None:
         nrec = rng.choice([1, 2, rng.randint(3, 25), rng.randint(10, 60)])
@@ -37,10 +42,14 @@ def build(rng, casedir, index, tier, stable=None, size=None, nrec=None, tags="sa
         extra = tags if tags != "safe" else rng.choice(["safe", "grammar_plain"])
         if long_lines and rng.random() < 0.3:
             extra = [f"zl:Z:{'x' * (rng.randint(500, 3000) if rng.random() < 0.9 else rng.randint(66000, 90000))}", "NM:i:3"]
-        recs.append(ggaf.make_record(g, rng, wk, f"r{index}_{i}", offsets=offsets, tags=extra, name_space=name_space and rng.random() < 0.3))
+        recs.append(ggaf.make_record(g, rng, wk, f"r{index}_{i}", offsets=offsets, tags=extra, name_space=name_space and rng.random() < 0.3,
+                                     cigar=not long_nodes))  # (no megabase CIGAR strings on the long segments)
     lines = [r.line for r in recs]
     if w.stable:
         lines = [rgaf.ref_to_stable(g, l) for l in lines]
+        # stable paths written by other tools need not consist of whole segments: an interval may
+        # end (or begin) anywhere inside a segment
+        lines = [partial_intervals(l, rng) if rng.random() < 0.25 else l for l in lines]
     w.lines, w.text_kind = ggaf.text_variant(lines, rng)
     lines = w.lines
     w.walks = walks
@@ -54,6 +63,40 @@ def build(rng, casedir, index, tier, stable=None, size=None, nrec=None, tags="sa
     w.aligned = set().union(*w.nodesets) if w.nodesets else set()
     w.unaligned = [n for n in g.nodes if n not in w.aligned]
     return w
+
+
+def partial_intervals(line, rng):
+    """shorten the last (and sometimes the first) explicit interval of a stable path so that it ends /
+    begins strictly inside a segment; path length and offsets are kept consistent"""
+    import re
+    c = line.split("\t")
+    els = re.findall(r"[<>][^<>]+", c[5])
+    if not els or any(":" not in e for e in els):
+        return line
+    plen, ps, pe = int(c[6]), int(c[7]), int(c[8])
+
+    def split(e):
+        contig, _, iv = e[1:].rpartition(":")
+        a, b = (int(x) for x in iv.split("-"))
+        return e[0], contig, a, b
+
+    o, contig, a, b = split(els[-1])
+    if b - a >= 2:
+        nb = rng.randint(a + 1, b - 1)
+        # '<' elements are traversed from their end: cutting the end of the interval removes bases at the
+        # front of that element, the path just gets shorter; offsets are clamped into the new path
+        plen -= b - nb
+        els[-1] = f"{o}{contig}:{a}-{nb}"
+    if rng.random() < 0.3:
+        o, contig, a, b = split(els[0])
+        if b - a >= 2:
+            na = rng.randint(a + 1, b - 1)
+            plen -= na - a
+            els[0] = f"{o}{contig}:{na}-{b}"
+    pe = max(1, min(pe, plen))
+    ps = min(ps, pe - 1)
+    c[5], c[6], c[7], c[8] = "".join(els), str(plen), str(ps), str(pe)
+    return "\t".join(c)
 
 
 def run_index(w, out=None):
